@@ -1,7 +1,10 @@
-// kvreplay replays BadgerKVGen histories (TLC-generated) against the real badger DB and
-// compares every observation with the one the specification predicted.
+// kvreplay replays TLC-generated cases of the kv specification family against the real
+// badger DB and compares every observation with the one the specification predicted.
 //
-// input : NDJSON, one history (JSON array of steps) per line
+//	-mode hist  : BadgerKVGen histories (JSON array of steps per line)
+//	-mode store : KVIterGen cases (a store with placements, pending-write runs, iterator
+//	              queries with predicted sequences), see store.go
+//
 // output: NDJSON on stdout, one line per case: {"case":i,"ok":bool,"step":j,"sig":..,"detail":..}
 // exit  : 0 when all cases were executed (mismatches are reported in the output),
 //
@@ -10,12 +13,13 @@ package main
 
 import (
 	"bytes"
+	"crypto/sha256"
+	"encoding/hex"
 	"encoding/json"
 	"flag"
 	"fmt"
 	"math/rand"
 	"os"
-	"path/filepath"
 	"sort"
 	"strings"
 	"time"
@@ -28,17 +32,32 @@ import (
 	"verifharness/vh"
 )
 
+// Res is one observed / predicted item.
 type Res struct {
 	Found bool   `json:"found"`
 	Val   int    `json:"val"`
 	Ts    uint64 `json:"ts"`
 	Um    int    `json:"um"`
 	Exp   uint64 `json:"exp"`
+	Disc  bool   `json:"disc"`
+	Del   bool   `json:"del"`
+	Dead  bool   `json:"dead"`
 }
 
 type KRes struct {
 	K   int `json:"k"`
 	Res Res `json:"res"`
+}
+
+// Opts mirrors KVDefs!NoOpts.
+type Opts struct {
+	Rev      bool   `json:"rev"`
+	All      bool   `json:"all"`
+	Since    uint64 `json:"since"`
+	Pfx      int    `json:"pfx"`
+	Pmode    string `json:"pmode"`
+	Seek     int    `json:"seek"`
+	Internal bool   `json:"internal"`
 }
 
 type Step struct {
@@ -53,10 +72,15 @@ type Step struct {
 	Disc   bool            `json:"disc"`
 	Res    json.RawMessage `json:"res"`
 	Cts    uint64          `json:"cts"`
+	Cb     bool            `json:"cb"`
 	From   int             `json:"from"`
 	Rev    bool            `json:"rev"`
+	O      *Opts           `json:"o"`
+	Hw     uint64          `json:"hw"`
 	Now    uint64          `json:"now"`
 	What   string          `json:"what"`
+	Via    string          `json:"via"`
+	Ts     uint64          `json:"ts"`
 }
 
 const clockBase = 4000000000
@@ -73,13 +97,18 @@ type cfg struct {
 	managed   bool
 	inmem     bool
 	encrypted bool
+	encLen    int
 	vlog      bool // low value threshold: odd values go to the value log
+	thr       bool // low value threshold, value sizes around it
+	vlogpct   bool // dynamic threshold (VLogPercentile)
+	lsmonly   bool // value threshold at the transaction size limit: everything inline
 	compress  options.CompressionType
 	levels    int
+	sync      bool
 }
 
-func parseConfig(name string) cfg {
-	c := cfg{name: name, levels: 7}
+func parseConfig(name string, seed int64) cfg {
+	c := cfg{name: name, levels: 7, encLen: []int{16, 24, 32}[int(seed)%3]}
 	for _, p := range strings.Split(name, "+") {
 		switch p {
 		case "default", "":
@@ -89,14 +118,25 @@ func parseConfig(name string) cfg {
 			c.inmem = true
 		case "enc":
 			c.encrypted = true
+		case "enc16", "enc24", "enc32":
+			c.encrypted = true
+			fmt.Sscanf(p[3:], "%d", &c.encLen)
 		case "vlog":
 			c.vlog = true
+		case "thr":
+			c.thr = true
+		case "vlogpct":
+			c.vlogpct = true
+		case "lsmonly":
+			c.lsmonly = true
 		case "zstd":
 			c.compress = options.ZSTD
 		case "snappy":
 			c.compress = options.Snappy
 		case "l3":
 			c.levels = 3
+		case "sync":
+			c.sync = true
 		default:
 			vh.Fatalf("unknown config part %q", p)
 		}
@@ -111,9 +151,12 @@ type runner struct {
 	keys    []string
 	rng     *rand.Rand
 	txns    map[int]*badger.Txn
+	iters   map[int]*openIter
 	rts     map[int]uint64 // real read ts per txn
+	mrts    map[int]uint64 // model read ts per txn
 	tsMap   map[uint64]uint64
-	offset  uint64 // model ts - real ts for commits of the current epoch
+	offset  int64 // model ts - real ts for commits of the current epoch
+	mnext   uint64 // the model's nextTs
 	now     uint64
 	prefetc bool
 	psize   int
@@ -121,6 +164,24 @@ type runner struct {
 	encKey  []byte
 	nGC     int
 	envDone map[string]int
+	stats   map[string]int
+	rec     *vh.Recorder
+	digest  [32]byte
+	trace   *traceWriter
+	opt     runOpts
+	caseIdx int
+	encSeen map[string]string // (keyId, iv) -> file, across the re-opens of one case
+	caseExtra map[string]interface{}
+	ignoreDisc bool // the read path does not expose the discard flag (Stream.ToList)
+}
+
+type runOpts struct {
+	final    string // "", "probe": re-open at the end and check C11 with one more commit
+	scan     bool   // scan every file for plaintext markers at the end of the case
+	ivs      bool   // collect (data key, IV) pairs at every re-open and at the end
+	fsaudit  bool   // report every fs.* hook event of the case
+	wrongKey bool   // at every plain re-open, first try a different master key
+	rotate   string // path of the badger CLI: rotate the master key at every plain re-open
 }
 
 type mismatch struct {
@@ -137,30 +198,45 @@ func (r *runner) opts() badger.Options {
 	}
 	o.MaxLevels = r.c.levels
 	o.Compression = r.c.compress
-	if r.c.vlog {
+	if r.c.vlog || r.c.thr || r.c.vlogpct {
 		o.ValueThreshold = 32
 		o.ValueLogMaxEntries = 3
+	}
+	if r.c.vlogpct {
+		o.VLogPercentile = 0.5
+	}
+	if r.c.lsmonly {
+		o.ValueThreshold = int64(0.15 * float64(o.MemTableSize)) // = maxBatchSize computed by Open
 	}
 	if r.c.encrypted {
 		o.EncryptionKey = r.encKey
 		o.EncryptionKeyRotationDuration = time.Nanosecond // a new data key for every file
 		o.IndexCacheSize = 1 << 20
 	}
+	o.SyncWrites = r.c.sync
 	o.NumVersionsToKeep = 1
 	return o
 }
 
+func (r *runner) openWith(o badger.Options) (*badger.DB, error) {
+	if r.c.managed {
+		return badger.OpenManaged(o)
+	}
+	return badger.Open(o)
+}
+
 func (r *runner) open() error {
 	var err error
-	if r.c.managed {
-		r.db, err = badger.OpenManaged(r.opts())
-	} else {
-		r.db, err = badger.Open(r.opts())
-	}
+	r.db, err = r.openWith(r.opts())
 	return err
 }
 
-func (r *runner) key(k int) []byte { return []byte(r.keys[k-1]) }
+func (r *runner) key(k int) []byte {
+	if k < 1 || k > len(r.keys) {
+		vh.Fatalf("key index %d outside the key table (%d keys)", k, len(r.keys))
+	}
+	return []byte(r.keys[k-1])
+}
 
 func (r *runner) keyIndex(b []byte) int {
 	for i, s := range r.keys {
@@ -174,8 +250,8 @@ func (r *runner) keyIndex(b []byte) int {
 func (r *runner) value(val int) []byte {
 	n := r.valSize(val)
 	s := fmt.Sprintf("v%06d.", val)
-	for len(s) < n {
-		s += "x"
+	if len(s) < n {
+		s += strings.Repeat("x", n-len(s))
 	}
 	return []byte(s)
 }
@@ -196,41 +272,94 @@ func (r *runner) realExp(e uint64) uint64 {
 	return clockBase + e
 }
 
-func (r *runner) mapTs(m uint64) (uint64, bool) {
+// realTs maps a model timestamp to the real one: commit timestamps through the map built
+// at commit time; the read timestamp of transaction t (version of its pending writes)
+// through the transaction's own pair.
+func (r *runner) realTs(m uint64, t int) (uint64, bool) {
+	if v, ok := r.tsMap[m]; ok {
+		return v, true
+	}
+	if t >= 0 {
+		if mr, ok := r.mrts[t]; ok && mr == m {
+			return r.rts[t], true
+		}
+	}
 	if m == 0 {
 		return 0, true
 	}
-	v, ok := r.tsMap[m]
-	return v, ok
+	return 0, false
 }
 
-// itemRes converts a real item into the model's observation (timestamps mapped back).
+// tsMatch tells whether the real version got is what model version m stands for: the
+// commit with that model timestamp, or (pending writes) the read timestamp of transaction t.
+func (r *runner) tsMatch(m uint64, t int, got uint64) bool {
+	if v, ok := r.tsMap[m]; ok && v == got {
+		return true
+	}
+	if t >= 0 {
+		if mr, ok := r.mrts[t]; ok && mr == m && r.rts[t] == got {
+			return true
+		}
+	}
+	return m == 0 && got == 0
+}
+
+// realFloor maps a model timestamp used as a bound (SinceTs, discard bound) to the largest
+// real timestamp of a commit at or below it.
+func (r *runner) realFloor(m uint64) uint64 {
+	if r.c.managed {
+		return m
+	}
+	var best uint64
+	for mm, rr := range r.tsMap {
+		if mm <= m && rr > best {
+			best = rr
+		}
+	}
+	return best
+}
+
+// itemObs converts a real item into the model's observation and checks that every way of
+// reading the value (ValueCopy, Value callback, ValueSize) agrees.
 func (r *runner) itemObs(it *badger.Item) (Res, []byte, error) {
 	v, err := it.ValueCopy(nil)
 	if err != nil {
 		return Res{}, nil, err
 	}
+	var v2 []byte
+	if err := it.Value(func(b []byte) error { v2 = append([]byte{}, b...); return nil }); err != nil {
+		return Res{}, nil, fmt.Errorf("Item.Value: %v", err)
+	}
+	if !bytes.Equal(v, v2) {
+		return Res{}, nil, fmt.Errorf("Item.Value %q differs from Item.ValueCopy %q", trunc(v2), trunc(v))
+	}
 	exp := it.ExpiresAt()
 	if exp != 0 {
 		exp -= clockBase
 	}
-	return Res{Found: true, Val: parseVal(v), Ts: it.Version(), Um: int(it.UserMeta()), Exp: exp}, v, nil
+	return Res{Found: true, Val: parseVal(v), Ts: it.Version(), Um: int(it.UserMeta()), Exp: exp,
+		Disc: it.DiscardEarlierVersions(), Dead: it.IsDeletedOrExpired()}, v, nil
 }
 
-// cmpRes compares a real observation with the predicted one. The predicted timestamp is
-// a model timestamp; own-write reads carry the transaction's read timestamp.
-func (r *runner) cmpRes(want Res, got Res, gotRaw []byte, ownReadTs *uint64) string {
+// cmpRes compares a real observation with the predicted one (t = transaction, -1 none).
+func (r *runner) cmpRes(want Res, got Res, gotRaw []byte, t int) string {
 	if want.Found != got.Found {
 		return fmt.Sprintf("found: want %v got %v", want.Found, got.Found)
 	}
 	if !want.Found {
 		return ""
 	}
-	if want.Val != got.Val {
-		return fmt.Sprintf("value: want v%d got %q", want.Val, trunc(gotRaw))
-	}
-	if !bytes.Equal(gotRaw, r.value(want.Val)) {
-		return fmt.Sprintf("value bytes differ for v%d: got %q", want.Val, trunc(gotRaw))
+	if want.Del {
+		if len(gotRaw) != 0 {
+			return fmt.Sprintf("value: delete marker carries a value %q", trunc(gotRaw))
+		}
+	} else {
+		if want.Val != got.Val {
+			return fmt.Sprintf("value: want v%d got %q", want.Val, trunc(gotRaw))
+		}
+		if !bytes.Equal(gotRaw, r.value(want.Val)) {
+			return fmt.Sprintf("value bytes differ for v%d: got %q (len %d, want len %d)", want.Val, trunc(gotRaw), len(gotRaw), len(r.value(want.Val)))
+		}
 	}
 	if want.Um != got.Um {
 		return fmt.Sprintf("userMeta: want %d got %d", want.Um, got.Um)
@@ -238,15 +367,17 @@ func (r *runner) cmpRes(want Res, got Res, gotRaw []byte, ownReadTs *uint64) str
 	if want.Exp != got.Exp {
 		return fmt.Sprintf("expiresAt: want %d got %d", want.Exp, got.Exp)
 	}
-	wantTs, ok := r.mapTs(want.Ts)
-	if ownReadTs != nil && want.Ts == *ownReadTs {
-		// item served from pending writes (or a committed version exactly at readTs)
-		return ""
+	if want.Disc != got.Disc && !r.ignoreDisc {
+		return fmt.Sprintf("discardEarlierVersions: want %v got %v", want.Disc, got.Disc)
 	}
+	if want.Dead != got.Dead {
+		return fmt.Sprintf("isDeletedOrExpired: want %v got %v", want.Dead, got.Dead)
+	}
+	wantTs, ok := r.realTs(want.Ts, t)
 	if !ok {
 		return fmt.Sprintf("version: model ts %d never committed (got real %d)", want.Ts, got.Ts)
 	}
-	if wantTs != got.Ts {
+	if !r.tsMatch(want.Ts, t, got.Ts) {
 		return fmt.Sprintf("version: want %d (model %d) got %d", wantTs, want.Ts, got.Ts)
 	}
 	return ""
@@ -259,114 +390,26 @@ func trunc(b []byte) string {
 	return string(b)
 }
 
-func (r *runner) ageTables() {
-	for _, lvl := range r.db.VerifTables() {
-		for _, t := range lvl {
-			r.db.VerifSetTableCreatedAt(t.ID, time.Now().Add(-2*time.Hour))
-		}
-	}
+func (r *runner) note(format string, a ...interface{}) {
+	h := sha256.New()
+	h.Write(r.digest[:])
+	fmt.Fprintf(h, format, a...)
+	copy(r.digest[:], h.Sum(nil))
 }
 
-func (r *runner) env(what string) *mismatch {
-	r.envDone[what]++
-	switch what {
-	case "flush":
-		if err := r.db.VerifFlush(); err != nil {
-			return &mismatch{"env.flush.error", err.Error()}
-		}
-	case "compactL0":
-		err := r.db.VerifDoCompact(1, 0, 1.0, 1.0)
-		if err != nil && err != badger.ErrVerifNoFill {
-			return &mismatch{"env.compactL0.error", err.Error()}
-		}
-	case "compactL0L0":
-		r.ageTables()
-		err := r.db.VerifDoCompact(0, 0, 1.0, 0.5)
-		if err != nil && err != badger.ErrVerifNoFill {
-			return &mismatch{"env.compactL0L0.error", err.Error()}
-		}
-	case "compactDown":
-		tabs := r.db.VerifTables()
-		for lvl := 1; lvl < len(tabs); lvl++ {
-			if len(tabs[lvl]) == 0 {
-				continue
-			}
-			if lvl == len(tabs)-1 {
-				r.ageTables()
-			}
-			err := r.db.VerifDoCompact(1, lvl, 1.0, 1.0)
-			if err != nil && err != badger.ErrVerifNoFill {
-				return &mismatch{"env.compactDown.error", err.Error()}
-			}
-			break
-		}
-	case "gc":
-		if r.c.inmem {
-			return nil
-		}
-		fids, _, maxFid := r.db.VerifVlogFids()
-		for _, f := range fids {
-			if f < maxFid {
-				r.nGC++
-				if err := r.db.VerifRewrite(f); err != nil {
-					return &mismatch{"env.gc.error", err.Error()}
-				}
-				break
-			}
-		}
-	case "reopen":
-		if r.c.inmem {
-			return nil
-		}
-		before := r.dump()
-		if err := r.db.Close(); err != nil {
-			return &mismatch{"env.reopen.close", err.Error()}
-		}
-		if err := r.open(); err != nil {
-			return &mismatch{"env.reopen.open", err.Error()}
-		}
-		after := r.dump()
-		if before != after {
-			return &mismatch{"env.reopen.contentChanged", map[string]string{"before": before, "after": after}}
-		}
-	default:
-		vh.Fatalf("unknown env step %q", what)
-	}
-	if err := r.db.VerifValidateLevels(); err != nil {
-		return &mismatch{"structure.validate", err.Error()}
-	}
-	return nil
-}
-
-// dump renders every visible key with its newest value at the maximal timestamp.
-func (r *runner) dump() string {
-	var txn *badger.Txn
-	if r.c.managed {
-		txn = r.db.NewTransactionAt(^uint64(0), false)
-	} else {
-		txn = r.db.NewTransaction(false)
-	}
-	defer txn.Discard()
-	o := badger.DefaultIteratorOptions
-	o.AllVersions = true
-	it := txn.NewIterator(o)
-	defer it.Close()
-	var sb strings.Builder
-	for it.Rewind(); it.Valid(); it.Next() {
-		i := it.Item()
-		v, err := i.ValueCopy(nil)
-		fmt.Fprintf(&sb, "%q@%d m=%d del=%v exp=%d v=%q e=%v;", i.Key(), i.Version(), i.UserMeta(), i.IsDeletedOrExpired(), i.ExpiresAt(), trunc(v), err)
-	}
-	return sb.String()
-}
-
-func (r *runner) runCase(steps []Step) (int, *mismatch) {
+func (r *runner) runCase(steps []Step) (at int, m *mismatch) {
 	r.txns = map[int]*badger.Txn{}
+	r.iters = map[int]*openIter{}
 	r.rts = map[int]uint64{}
+	r.mrts = map[int]uint64{}
 	r.tsMap = map[uint64]uint64{}
 	r.offset = 0
+	r.mnext = 1
 	r.now = 1
 	r.envDone = map[string]int{}
+	r.digest = [32]byte{}
+	r.encSeen = map[string]string{}
+	r.rec.Reset()
 	y.VerifSetClock(int64(clockBase + r.now))
 	defer y.VerifSetClock(0)
 	if !r.c.inmem {
@@ -381,190 +424,352 @@ func (r *runner) runCase(steps []Step) (int, *mismatch) {
 		return 0, &mismatch{"open.error", err.Error()}
 	}
 	defer func() {
+		for _, oi := range r.iters {
+			oi.it.Close()
+		}
 		for _, t := range r.txns {
 			t.Discard()
 		}
 		if r.db != nil {
 			r.db.Close()
+			r.db = nil
 		}
 	}()
-	modelReadTs := map[int]uint64{}
+	if r.trace != nil {
+		r.trace.reset(r)
+	}
 	for i, s := range steps {
-		switch s.Op {
-		case "begin":
-			t := r.db.NewTransaction(s.Upd)
-			r.txns[s.T] = t
-			r.rts[s.T] = t.ReadTs()
-			modelReadTs[s.T] = s.ReadTs
-			// the model's read timestamp is nextTs-1 of the current epoch
-			if want := s.ReadTs - r.offset; want != t.ReadTs() {
-				return i, &mismatch{"begin.readTs", fmt.Sprintf("want %d (model %d, epoch offset %d) got %d", want, s.ReadTs, r.offset, t.ReadTs())}
-			}
-		case "beginAt":
-			t := r.db.NewTransactionAt(s.ReadTs, s.Upd)
-			r.txns[s.T] = t
-			r.rts[s.T] = s.ReadTs
-			modelReadTs[s.T] = s.ReadTs
-		case "get":
-			var want Res
-			if err := json.Unmarshal(s.Res, &want); err != nil {
-				vh.Fatalf("bad res: %v", err)
-			}
-			item, err := r.txns[s.T].Get(r.key(s.K))
-			var got Res
-			var raw []byte
-			if err == badger.ErrKeyNotFound {
-				got = Res{}
-			} else if err != nil {
-				return i, &mismatch{"get.error", err.Error()}
-			} else {
-				got, raw, err = r.itemObs(item)
-				if err != nil {
-					return i, &mismatch{"get.value.error", err.Error()}
-				}
-				if !bytes.Equal(item.Key(), r.key(s.K)) {
-					return i, &mismatch{"get.key", fmt.Sprintf("asked %q got %q", r.key(s.K), item.Key())}
-				}
-			}
-			mr := modelReadTs[s.T]
-			if d := r.cmpRes(want, got, raw, &mr); d != "" {
-				return i, &mismatch{"get." + strings.SplitN(d, ":", 2)[0], d}
-			}
-		case "set":
-			e := badger.NewEntry(r.key(s.K), r.value(s.Val)).WithMeta(byte(s.Um))
-			e.ExpiresAt = r.realExp(s.Exp)
-			if s.Disc {
-				e = e.WithDiscard()
-			}
-			if err := r.txns[s.T].SetEntry(e); err != nil {
-				return i, &mismatch{"set.error", err.Error()}
-			}
-		case "del":
-			if err := r.txns[s.T].Delete(r.key(s.K)); err != nil {
-				return i, &mismatch{"del.error", err.Error()}
-			}
-		case "commit", "commitAt":
-			var want string
-			json.Unmarshal(s.Res, &want)
-			var err error
-			if s.Op == "commit" {
-				err = r.txns[s.T].Commit()
-			} else {
-				err = r.txns[s.T].CommitAt(s.Cts, nil)
-			}
-			delete(r.txns, s.T)
-			switch {
-			case err == nil && want == "conflict":
-				return i, &mismatch{"commit.missedConflict", "Commit returned nil, specification says ErrConflict"}
-			case err == badger.ErrConflict && want != "conflict":
-				return i, &mismatch{"commit.spuriousConflict", "Commit returned ErrConflict, specification says " + want}
-			case err != nil && err != badger.ErrConflict:
-				return i, &mismatch{"commit.error", err.Error()}
-			}
-			if want == "ok" {
-				if s.Op == "commitAt" {
-					r.tsMap[s.Cts] = s.Cts
-				} else {
-					r.tsMap[s.Cts] = s.Cts - r.offset
-				}
-			}
-		case "discard":
-			r.txns[s.T].Discard()
-			delete(r.txns, s.T)
-		case "iter":
-			var want []KRes
-			if err := json.Unmarshal(s.Res, &want); err != nil {
-				vh.Fatalf("bad iter res: %v (%s)", err, s.Res)
-			}
-			o := badger.DefaultIteratorOptions
-			o.Reverse = s.Rev
-			o.PrefetchValues = r.prefetc
-			o.PrefetchSize = r.psize
-			it := r.txns[s.T].NewIterator(o)
-			var got []KRes
-			var raws [][]byte
-			var prev []byte
-			for it.Seek(r.key(s.From)); it.Valid(); it.Next() {
-				item := it.Item()
-				kb := item.KeyCopy(nil)
-				if prev != nil {
-					c := bytes.Compare(prev, kb)
-					if (!s.Rev && c >= 0) || (s.Rev && c <= 0) {
-						it.Close()
-						return i, &mismatch{"iter.order", fmt.Sprintf("%q then %q (reverse=%v)", prev, kb, s.Rev)}
-					}
-				}
-				prev = kb
-				ki := r.keyIndex(kb)
-				obs, raw, err := r.itemObs(item)
-				if err != nil {
-					it.Close()
-					return i, &mismatch{"iter.value.error", err.Error()}
-				}
-				got = append(got, KRes{K: ki, Res: obs})
-				raws = append(raws, raw)
-			}
-			it.Close()
-			if len(got) != len(want) {
-				return i, &mismatch{"iter.length", map[string]interface{}{"want": want, "got": got}}
-			}
-			mr := modelReadTs[s.T]
-			for j := range want {
-				if want[j].K != got[j].K {
-					return i, &mismatch{"iter.key", map[string]interface{}{"want": want, "got": got}}
-				}
-				if d := r.cmpRes(want[j].Res, got[j].Res, raws[j], &mr); d != "" {
-					return i, &mismatch{"iter." + strings.SplitN(d, ":", 2)[0], map[string]interface{}{"pos": j, "diff": d, "want": want, "got": got}}
-				}
-			}
-		case "tick":
-			r.now = s.Now
-			y.VerifSetClock(int64(clockBase + r.now))
-		case "env":
-			if m := r.env(s.What); m != nil {
-				return i, m
-			}
-			if s.What == "reopen" && !r.c.inmem && !r.c.managed {
-				// C11: the next commit timestamp must exceed every stored version.
-				st := r.db.VerifOracleState()
-				ents, _ := r.db.VerifLayout()
-				var maxV uint64
-				for _, e := range ents {
-					if e.Version > maxV {
-						maxV = e.Version
-					}
-				}
-				if st.NextTxnTs <= maxV {
-					return i, &mismatch{"reopen.nextTsNotAboveStored", fmt.Sprintf("nextTxnTs=%d max stored version=%d", st.NextTxnTs, maxV)}
-				}
-				// model's next commit ts: largest model commit so far + 1
-				var mmax uint64
-				for m := range r.tsMap {
-					if m > mmax {
-						mmax = m
-					}
-				}
-				r.offset = (mmax + 1) - st.NextTxnTs
-			}
-		default:
-			vh.Fatalf("unknown op %q", s.Op)
+		if m := r.step(i, s); m != nil {
+			return i, m
 		}
+	}
+	if m := r.finish(); m != nil {
+		return len(steps), m
 	}
 	return -1, nil
 }
 
+func (r *runner) commitErr(s Step) error {
+	txn := r.txns[s.T]
+	if !s.Cb {
+		if s.Op == "commit" {
+			return txn.Commit()
+		}
+		return txn.CommitAt(s.Cts, nil)
+	}
+	ch := make(chan error, 1)
+	cb := func(err error) { ch <- err }
+	if s.Op == "commit" {
+		txn.CommitWith(cb)
+	} else if err := txn.CommitAt(s.Cts, cb); err != nil {
+		return err
+	}
+	select {
+	case err := <-ch:
+		return err
+	case <-time.After(60 * time.Second):
+		vh.Fatalf("CommitWith callback not called within 60s")
+	}
+	return nil
+}
+
+func (r *runner) step(i int, s Step) *mismatch {
+	switch s.Op {
+	case "begin":
+		t := r.db.NewTransaction(s.Upd)
+		r.txns[s.T] = t
+		r.rts[s.T] = t.ReadTs()
+		r.mrts[s.T] = s.ReadTs
+		// the model's read timestamp is nextTs-1 of the current epoch
+		if want := int64(s.ReadTs) - r.offset; want != int64(t.ReadTs()) {
+			return &mismatch{"begin.readTs", fmt.Sprintf("want %d (model %d, epoch offset %d) got %d", want, s.ReadTs, r.offset, t.ReadTs())}
+		}
+	case "beginAt":
+		t := r.db.NewTransactionAt(s.ReadTs, s.Upd)
+		r.txns[s.T] = t
+		r.rts[s.T] = s.ReadTs
+		r.mrts[s.T] = s.ReadTs
+	case "get":
+		var want Res
+		if err := json.Unmarshal(s.Res, &want); err != nil {
+			vh.Fatalf("bad res: %v", err)
+		}
+		item, err := r.txns[s.T].Get(r.key(s.K))
+		var got Res
+		var raw []byte
+		if err == badger.ErrKeyNotFound {
+			got = Res{}
+		} else if err != nil {
+			return &mismatch{"get.error", err.Error()}
+		} else {
+			got, raw, err = r.itemObs(item)
+			if err != nil {
+				return &mismatch{"get.value.error", err.Error()}
+			}
+			if !bytes.Equal(item.Key(), r.key(s.K)) {
+				return &mismatch{"get.key", fmt.Sprintf("asked %q got %q", r.key(s.K), item.Key())}
+			}
+		}
+		r.stats["get"]++
+		r.note("get %d %v %d %d %d %d|", s.K, got.Found, got.Val, got.Um, got.Exp, got.Ts)
+		if d := r.cmpRes(want, got, raw, s.T); d != "" {
+			return &mismatch{"get." + strings.SplitN(d, ":", 2)[0], d}
+		}
+	case "set":
+		e := badger.NewEntry(r.key(s.K), r.value(s.Val)).WithMeta(byte(s.Um))
+		if s.Disc {
+			e = e.WithDiscard()
+		}
+		e.ExpiresAt = r.realExp(s.Exp)
+		if err := r.txns[s.T].SetEntry(e); err != nil {
+			return &mismatch{"set.error", err.Error()}
+		}
+	case "setBig":
+		// an inline value that alone exceeds the transaction size limit (15% of the
+		// memtable): refused with ErrTxnTooBig, the transaction stays usable. Needs a
+		// configuration whose value threshold is at the limit (lsmonly, inmem).
+		n := int64(200000)
+		if !r.c.inmem {
+			n = r.db.VerifValueThreshold() - 1
+		}
+		if _, maxSize := r.db.VerifMaxBatch(); n+64 < maxSize {
+			vh.Fatalf("setBig needs a configuration with ValueThreshold at the batch limit (lsmonly or inmem), threshold-1=%d limit=%d", n, maxSize)
+		}
+		err := r.txns[s.T].SetEntry(badger.NewEntry(r.key(s.K), bytes.Repeat([]byte("B"), int(n))))
+		if err == nil {
+			return &mismatch{"setBig.accepted", fmt.Sprintf("Set of a %d-byte inline value accepted, specification says ErrTxnTooBig", n)}
+		}
+		if err != badger.ErrTxnTooBig {
+			return &mismatch{"setBig.error", err.Error()}
+		}
+		r.stats["setBig"]++
+	case "del":
+		if err := r.txns[s.T].Delete(r.key(s.K)); err != nil {
+			return &mismatch{"del.error", err.Error()}
+		}
+	case "commit", "commitAt":
+		var want string
+		json.Unmarshal(s.Res, &want)
+		if want == "blocked" {
+			if err := r.db.VerifKVBlockWrites(); err != nil {
+				return &mismatch{"env.block.error", err.Error()}
+			}
+		}
+		if want == "closed" {
+			if err := r.db.Close(); err != nil {
+				return &mismatch{"env.close.error", err.Error()}
+			}
+		}
+		err := r.commitErr(s)
+		delete(r.txns, s.T)
+		if want == "blocked" {
+			r.db.VerifKVUnblockWrites()
+			if !r.c.managed {
+				r.mnext++ // the refused commit consumed a timestamp (the contract models it)
+			}
+		}
+		if want == "closed" {
+			r.db = nil
+			if r.c.inmem {
+				vh.Fatalf("closed-DB rejection in an in-memory configuration")
+			}
+			if e2 := r.open(); e2 != nil {
+				return &mismatch{"env.reopen.open", e2.Error()}
+			}
+			r.resync()
+		}
+		r.stats["commit:"+want]++
+		switch {
+		case want == "blocked" || want == "closed":
+			if err == nil {
+				return &mismatch{"commit.notRejected", "Commit returned nil on a " + want + " DB"}
+			}
+			if err == badger.ErrConflict {
+				// the specification sees no overlap for this transaction (GCommitRej requires it)
+				return &mismatch{"commit.spuriousConflict", "Commit returned ErrConflict, specification says no conflicting commit exists (the commit is refused as " + want + ")"}
+			}
+			if err != badger.ErrBlockedWrites && err != badger.ErrDBClosed {
+				return &mismatch{"commit.error", err.Error()}
+			}
+		case err == nil && want == "conflict":
+			return &mismatch{"commit.missedConflict", "Commit returned nil, specification says ErrConflict"}
+		case err == badger.ErrConflict && want != "conflict":
+			return &mismatch{"commit.spuriousConflict", "Commit returned ErrConflict, specification says " + want}
+		case err != nil && err != badger.ErrConflict:
+			return &mismatch{"commit.error", err.Error()}
+		}
+		if want == "ok" {
+			if s.Op == "commitAt" {
+				r.tsMap[s.Cts] = s.Cts
+			} else {
+				r.tsMap[s.Cts] = uint64(int64(s.Cts) - r.offset)
+				r.mnext = s.Cts + 1
+			}
+			if r.trace != nil {
+				r.trace.afterCommit(r, r.tsMap[s.Cts])
+			}
+		}
+	case "discard":
+		r.txns[s.T].Discard()
+		delete(r.txns, s.T)
+	case "iter":
+		var want []KRes
+		if err := json.Unmarshal(s.Res, &want); err != nil {
+			vh.Fatalf("bad iter res: %v (%s)", err, s.Res)
+		}
+		o := s.O
+		if o == nil {
+			o = &Opts{Rev: s.Rev, Seek: s.From, Pmode: "none"}
+		}
+		oi := r.newIter(r.txns[s.T], *o, s.T)
+		got, raws, m := oi.run(r)
+		oi.it.Close()
+		if m != nil {
+			return m
+		}
+		r.stats["iter"]++
+		if m := r.cmpSeq("iter", want, got, raws, s.T, o.All, s.Hw); m != nil {
+			return m
+		}
+	case "iterOpen":
+		r.iters[s.T] = r.newIter(r.txns[s.T], *s.O, s.T)
+	case "iterRun":
+		var want []KRes
+		if err := json.Unmarshal(s.Res, &want); err != nil {
+			vh.Fatalf("bad iter res: %v (%s)", err, s.Res)
+		}
+		oi := r.iters[s.T]
+		delete(r.iters, s.T)
+		got, raws, m := oi.run(r)
+		oi.it.Close()
+		if m != nil {
+			return m
+		}
+		r.stats["iterRun"]++
+		if m := r.cmpSeq("iterRun", want, got, raws, s.T, oi.o.All, s.Hw); m != nil {
+			return m
+		}
+	case "scan":
+		var want []KRes
+		if err := json.Unmarshal(s.Res, &want); err != nil {
+			vh.Fatalf("bad scan res: %v", err)
+		}
+		got, raws, m := r.scan(s.Via)
+		if m != nil {
+			return m
+		}
+		r.stats["scan:"+s.Via]++
+		r.ignoreDisc = s.Via == "stream"
+		m = r.cmpSeq("scan."+s.Via, want, got, raws, -1, false, 0)
+		r.ignoreDisc = false
+		if m != nil {
+			return m
+		}
+	case "dump":
+		var want []KRes
+		if err := json.Unmarshal(s.Res, &want); err != nil {
+			vh.Fatalf("bad dump res: %v", err)
+		}
+		txn := r.latestTxn()
+		oi := r.newIter(txn, Opts{All: true, Pmode: "none"}, -1)
+		got, raws, m := oi.run(r)
+		oi.it.Close()
+		txn.Discard()
+		if m != nil {
+			return m
+		}
+		r.stats["dump"]++
+		if m := r.cmpSeq("dump", want, got, raws, -1, true, s.Hw); m != nil {
+			return m
+		}
+	case "tick":
+		r.now = s.Now
+		y.VerifSetClock(int64(clockBase + r.now))
+	case "setDiscardTs":
+		r.db.SetDiscardTs(s.Ts)
+	case "env":
+		if m := r.env(s.What); m != nil {
+			return m
+		}
+	default:
+		vh.Fatalf("unknown op %q", s.Op)
+	}
+	return nil
+}
+
+func (r *runner) latestTxn() *badger.Txn {
+	if r.c.managed {
+		return r.db.NewTransactionAt(^uint64(0), false)
+	}
+	return r.db.NewTransaction(false)
+}
+
+// resync recomputes the model-ts/real-ts offset after a re-open and asserts C11 on the way.
+func (r *runner) resync() *mismatch {
+	if r.trace != nil {
+		r.trace.reopened(r)
+	}
+	if r.c.managed {
+		return nil
+	}
+	st := r.db.VerifOracleState()
+	if err := vh.AssertNextTsAboveAll(r.db); err != nil {
+		return &mismatch{"reopen.nextTsNotAboveStored", err.Error()}
+	}
+	// the model's next commit timestamp keeps counting across the re-open
+	r.offset = int64(r.mnext) - int64(st.NextTxnTs)
+	return nil
+}
+
 func main() {
 	in := flag.String("in", "", "cases NDJSON")
-	config := flag.String("config", "default", "db configuration: parts joined by + (default, managed, inmem, enc, vlog, zstd, snappy, l3)")
+	config := flag.String("config", "default", "db configuration: parts joined by + (default, managed, inmem, enc[16|24|32], vlog, thr, vlogpct, zstd, snappy, l3, sync)")
 	seed := flag.Int64("seed", 1, "seed")
 	shard := flag.Int("shard", 0, "shard index")
 	nshard := flag.Int("nshards", 1, "number of shards")
+	mode := flag.String("mode", "hist", "hist | store")
+	keysFile := flag.String("keys", "", "JSON file with the key concretisation table (latin-1 strings)")
+	final := flag.String("final", "", "probe: re-open at the end of every case and commit once more (C11)")
+	scan := flag.Bool("scan", false, "scan all files for plaintext markers at the end of every case")
+	ivs := flag.Bool("ivs", false, "collect (data key, IV) pairs")
+	fsaudit := flag.Bool("fsaudit", false, "report fs.* hook events per case")
+	wrongKey := flag.Bool("wrongkey", false, "try a wrong master key at every plain re-open")
+	rotate := flag.String("rotate", "", "badger CLI binary: rotate the master key at every plain re-open")
+	traceOut := flag.String("trace", "", "write the threshold-decision trace (NDJSON) here")
+	prefetch := flag.String("prefetch", "", "override: on|off")
+	psize := flag.Int("psize", 0, "override PrefetchSize")
+	roprobe := flag.String("roprobe", "", "child mode: open this directory read-only, dump, close")
+	encKeyHex := flag.String("enckey", "", "child mode: master key (hex)")
+	clock := flag.Int64("clock", 0, "child mode: clock override")
 	flag.Parse()
-	c := parseConfig(*config)
+	c := parseConfig(*config, *seed)
 	rng := rand.New(rand.NewSource(*seed))
-	r := &runner{c: c, rng: rng}
-	r.encKey = []byte("0123456789abcdef0123456789abcdef")[:[]int{16, 24, 32}[int(*seed)%3]]
+	r := &runner{c: c, rng: rng, stats: map[string]int{}}
+	r.opt = runOpts{final: *final, scan: *scan, ivs: *ivs, fsaudit: *fsaudit, wrongKey: *wrongKey, rotate: *rotate}
+	r.encKey = []byte("0123456789abcdef0123456789abcdef")[:c.encLen]
 	r.keys = keyTables[int(*seed)%len(keyTables)]
+	if *keysFile != "" {
+		b, err := os.ReadFile(*keysFile)
+		if err != nil {
+			vh.Fatalf("%v", err)
+		}
+		var ks []string
+		if err := json.Unmarshal(b, &ks); err != nil {
+			vh.Fatalf("keys file: %v", err)
+		}
+		r.keys = nil
+		for _, k := range ks {
+			// latin-1: one rune per byte
+			bs := make([]byte, 0, len(k))
+			for _, ru := range k {
+				bs = append(bs, byte(ru))
+			}
+			r.keys = append(r.keys, string(bs))
+		}
+	}
+	if !sort.StringsAreSorted(r.keys) {
+		vh.Fatalf("key table is not sorted in byte order")
+	}
 	seen := map[uint64]string{}
 	for _, k := range r.keys {
 		h := z.MemHash([]byte(k))
@@ -575,41 +780,95 @@ func main() {
 	}
 	r.prefetc = *seed%2 == 0
 	r.psize = []int{1, 2, 100}[int(*seed)%3]
+	if *prefetch != "" {
+		r.prefetc = *prefetch == "on"
+	}
+	if *psize > 0 {
+		r.psize = *psize
+	}
+	thrSizes := []int{8, 31, 32, 33, 200}
+	// the histogram of the dynamic threshold has 1024 buckets of ~153.6 bytes starting at 32:
+	// sizes sit on both sides of the first bucket bounds (185.6, 339.1, 492.7, 646.2, 799.8)
+	pctSizes := []int{8, 31, 33, 185, 186, 187, 339, 340, 493, 646, 647, 800, 1200, 3000}
 	r.valSize = func(val int) int {
-		if c.vlog && val%2 == 1 {
+		switch {
+		case c.vlogpct:
+			return pctSizes[val%len(pctSizes)]
+		case c.thr:
+			return thrSizes[val%len(thrSizes)]
+		case c.vlog && val%2 == 1:
 			return 100
 		}
 		return 8
 	}
+	r.rec = vh.Install(true)
+	if *roprobe != "" {
+		if *encKeyHex != "" {
+			r.encKey, _ = hex.DecodeString(*encKeyHex)
+		}
+		if *clock != 0 {
+			y.VerifSetClock(*clock)
+		}
+		roProbeMain(r, *roprobe)
+		return
+	}
+	if *traceOut != "" {
+		r.trace = newTraceWriter(*traceOut, r)
+		defer r.trace.close()
+	}
 	enc := json.NewEncoder(os.Stdout)
 	idx := 0
-	nrun := 0
 	err := vh.ReadNDJSON(*in, func(line []byte) error {
 		i := idx
 		idx++
 		if i%*nshard != *shard {
 			return nil
 		}
-		var steps []Step
-		if err := json.Unmarshal(line, &steps); err != nil {
-			return fmt.Errorf("case %d: %v", i, err)
+		r.caseIdx = i
+		r.stats = map[string]int{}
+		var at int
+		var m *mismatch
+		var extra map[string]interface{}
+		if *mode == "store" {
+			var sc StoreCase
+			if err := json.Unmarshal(line, &sc); err != nil {
+				return fmt.Errorf("case %d: %v", i, err)
+			}
+			at, m, extra = r.runStore(&sc)
+		} else {
+			var steps []Step
+			if err := json.Unmarshal(line, &steps); err != nil {
+				return fmt.Errorf("case %d: %v", i, err)
+			}
+			at, m = r.runCase(steps)
+			extra = r.caseExtra
+			r.caseExtra = nil
+			if m != nil && at >= 0 && at < len(steps) {
+				if extra == nil {
+					extra = map[string]interface{}{}
+				}
+				extra["op"] = steps[at].Op
+				if steps[at].Op == "env" {
+					extra["op"] = "env:" + steps[at].What
+				}
+			}
 		}
-		nrun++
-		at, m := r.runCase(steps)
-		out := map[string]interface{}{"case": i, "ok": m == nil, "env": r.envDone, "gc": r.nGC}
+		out := map[string]interface{}{"case": i, "ok": m == nil, "env": r.envDone, "gc": r.nGC,
+			"stats": r.stats, "digest": hex.EncodeToString(r.digest[:8])}
+		for k, v := range extra {
+			out[k] = v
+		}
 		if m != nil {
 			out["step"] = at
 			out["sig"] = m.Sig
 			out["detail"] = m.Detail
-			if at >= 0 && at < len(steps) {
-				out["op"] = steps[at].Op
-			}
 		}
 		return enc.Encode(out)
 	})
+	if r.trace != nil {
+		r.trace.close()
+	}
 	if err != nil {
 		vh.Fatalf("%v", err)
 	}
-	_ = filepath.Join
-	_ = sort.Ints
 }
